@@ -9,3 +9,80 @@ Theorem C15_find_after_put : forall k f fresh c,
              (s' = fresh \/ exists s, find_var k (vars c) = Some s /\ s' = f s).
 Proof. exact find_var_put. Qed.
 Print Assumptions C15_find_after_put.
+
+(* ---- refinement of the reference semantics: assignments (Proofs/RefineBase.v, RefineNodes.v) ---- *)
+From Coq Require Import String.
+From DT Require Import Model.Mods Spec.Ast Spec.RefEval Spec.Compile Proofs.FlatProofs Proofs.RefineBase
+  Proofs.RefineList Proofs.RefineNodes Proofs.RefineFindings.
+Local Open Scope Z_scope.
+
+(* every setter, seen through the abstraction, is the reference assignment: the entry of the name
+   is replaced in place (or appended), whatever representation was live before *)
+Theorem C15_set_is_env_set : forall k v st c,
+  abs (ctx_set k v st c) = env_set k (deref (bufLC c) v) st (abs c).
+Proof. exact abs_ctx_set. Qed.
+Print Assumptions C15_set_is_env_set.
+
+Theorem C15_set_bytes_is_env_set : forall k b c,
+  b <> [] -> abs (ctx_set_bytes k b c) = env_set k (VBytes b) true (abs c).
+Proof. exact abs_ctx_set_bytes. Qed.
+Print Assumptions C15_set_bytes_is_env_set.
+
+Theorem C15_set_counter_is_env_set : forall k n c,
+  abs (ctx_set_counter k n c) = env_set k (VInt n) true (abs c).
+Proof. exact abs_ctx_set_counter. Qed.
+Print Assumptions C15_set_counter_is_env_set.
+
+(* {% ctx var = src|mods... %} and {% ctx var = "lit" %} *)
+Theorem C15_ctx_refines :
+  forall flits lookup budget inc rlookup rinc L var src ok (lit : bool) mods,
+    (lit = true -> src <> []) ->
+    node_ref flits lookup budget inc rlookup rinc L
+      (NCtx var src ok b_static lit (if lit then [] else map c_mod mods)) (ACtx var src ok lit mods).
+Proof. exact ctx_ref. Qed.
+Print Assumptions C15_ctx_refines.
+
+(* {% counter var = n %}, {% counter var++ %}, {% counter var+n %} ... *)
+Theorem C15_counter_refines :
+  forall flits lookup budget inc rlookup rinc L var (is_init : bool) cop arg,
+    node_ref flits lookup budget inc rlookup rinc L
+      (NCounter var is_init (if is_init then arg else 0) (if is_init then OpUnk else cop) (if is_init then 0 else arg))
+      (ACounter var is_init cop arg).
+Proof. exact counter_ref. Qed.
+Print Assumptions C15_counter_refines.
+
+(* a ctx node never stores a counter cell: every slot that holds one afterwards held it before *)
+Theorem C15_ctx_node_no_new_cell :
+  forall flits lookup budget inc var src ok ins st mods c w c' w' e,
+    write_node flits lookup budget inc (NCtx var src ok ins st mods) c w = Out c' w' e ->
+    forall s' j, In s' (vars c') -> s_val s' = VCell j -> In s' (vars c).
+Proof. exact ctx_node_no_new_cell. Qed.
+Print Assumptions C15_ctx_node_no_new_cell.
+
+(* {% ctx x = i %} with i the live counter of a loop: x becomes a counter variable holding a copy
+   of the number (it no longer follows the counter), and no slot gains a cell *)
+Theorem C15_ctx_copies_loop_cell :
+  forall flits lookup budget inc var src ins c w i,
+    ctx_get (set_cerr None c) src = (set_cerr None c, VCell i) ->
+    exists c' s,
+      write_node flits lookup budget inc (NCtx var src [] ins false []) c w = Out c' w None /\
+      find_var var (vars c') = Some s /\
+      s_val s = VNil /\ s_buf s = [] /\ s_cntrF s = true /\ s_cntr s = nth i (bufLC c) 0 /\
+      var_value s [] = VInt (nth i (bufLC c) 0) /\
+      forall s' j, In s' (vars c') -> s_val s' = VCell j -> In s' (vars c).
+Proof. exact ctx_copies_loop_cell. Qed.
+Print Assumptions C15_ctx_copies_loop_cell.
+
+(* end to end: assigned in each iteration, printed after the loop, the variable has the value of
+   the last iteration on both sides (it used to follow the counter to its final value) *)
+Theorem C15_ctx_copies_loop_counter_example :
+  mout t_alias ctx_new = Some (B "2"%string, None) /\ rout t_alias ctx_new = (B "2"%string, SNone) /\
+  mvar t_alias ctx_new "x" = Some (mkEntry (VInt 2) true) /\ rvar t_alias ctx_new "x" = Some (mkEntry (VInt 2) true).
+Proof. exact ctx_copies_loop_counter. Qed.
+Print Assumptions C15_ctx_copies_loop_counter_example.
+
+(* still excluded, with a witness: an empty literal leaves the variable nil *)
+Theorem C15_empty_literal_disagrees :
+  mout t_empty_lit ctx_new = Some (B "N"%string, None) /\ rout t_empty_lit ctx_new = (B "Y"%string, SNone).
+Proof. exact F6_empty_literal_assignment. Qed.
+Print Assumptions C15_empty_literal_disagrees.
